@@ -1349,12 +1349,12 @@ impl Cpu {
                     return Err(CpuError::Exception(CpuException::IntegerZeroDivide));
                 }
 
+                let result = self.div(a, b, 0, 1)?;
+                self.write_op(bus, 1, result)?;
+
                 if a == 0xffffffff && b == 0x80000000 {
                     self.set_v_flag(true);
                 }
-
-                let result = self.div(a, b, 0, 1)?;
-                self.write_op(bus, 1, result)?;
                 self.set_nz_flags(result, 1);
                 self.set_c_flag(false);
             }
@@ -1366,12 +1366,12 @@ impl Cpu {
                     return Err(CpuError::Exception(CpuException::IntegerZeroDivide));
                 }
 
+                let result = self.div(a, b, 0, 1)?;
+                self.write_op(bus, 1, result)?;
+
                 if a == 0xffff && b == 0x8000 {
                     self.set_v_flag(true);
                 }
-
-                let result = self.div(a, b, 0, 1)?;
-                self.write_op(bus, 1, result)?;
                 self.set_nz_flags(result, 1);
                 self.set_c_flag(false);
             }
@@ -1383,12 +1383,12 @@ impl Cpu {
                     return Err(CpuError::Exception(CpuException::IntegerZeroDivide));
                 }
 
+                let result = self.div(a, b, 0, 1)?;
+                self.write_op(bus, 1, result)?;
+
                 if a == 0xff && b == 0x80 {
                     self.set_v_flag(true);
                 }
-
-                let result = self.div(a, b, 0, 1)?;
-                self.write_op(bus, 1, result)?;
                 self.set_nz_flags(result, 1);
                 self.set_c_flag(false);
             }
@@ -1400,12 +1400,12 @@ impl Cpu {
                     return Err(CpuError::Exception(CpuException::IntegerZeroDivide));
                 }
 
+                let result = self.div(a, b, 0, 1)?;
+                self.write_op(bus, 2, result)?;
+
                 if a == 0xffffffff && b == 0x80000000 {
                     self.set_v_flag(true);
                 }
-
-                let result = self.div(a, b, 0, 1)?;
-                self.write_op(bus, 2, result)?;
                 self.set_nz_flags(result, 2);
                 self.set_c_flag(false);
             }
@@ -1417,12 +1417,12 @@ impl Cpu {
                     return Err(CpuError::Exception(CpuException::IntegerZeroDivide));
                 }
 
+                let result = self.div(a, b, 0, 1)?;
+                self.write_op(bus, 2, result)?;
+
                 if a == 0xffff && b == 0x8000 {
                     self.set_v_flag(true);
                 }
-
-                let result = self.div(a, b, 0, 1)?;
-                self.write_op(bus, 2, result)?;
                 self.set_nz_flags(result, 2);
                 self.set_c_flag(false);
             }
@@ -1434,12 +1434,12 @@ impl Cpu {
                     return Err(CpuError::Exception(CpuException::IntegerZeroDivide));
                 }
 
+                let result = self.div(a, b, 0, 1)?;
+                self.write_op(bus, 2, result)?;
+
                 if a == 0xff && b == 0x80 {
                     self.set_v_flag(true);
                 }
-
-                let result = self.div(a, b, 0, 1)?;
-                self.write_op(bus, 2, result)?;
                 self.set_nz_flags(result, 2);
                 self.set_c_flag(false);
             }
